@@ -10,6 +10,7 @@ import (
 
 	json "github.com/go-json-experiment/json"
 	"github.com/go-json-experiment/json/jsontext"
+	jsonv1 "github.com/go-json-experiment/json/v1"
 
 	"verifsim/core"
 	"verifsim/peers"
@@ -31,7 +32,7 @@ type DepthPlan struct {
 }
 
 var depthPaths = []string{"ReadToken", "ReadValue", "SkipValue", "split-ReadValue", "split-SkipValue", "IsValid", "Format", "Compact", "Indent", "Canonicalize", "WriteToken", "WriteValue", "split-WriteValue",
-	"Marshal-anyslice", "Marshal-anymap", "Marshal-ptrchain", "Marshal-recslice", "Marshal-recmap", "MarshalWrite-anyslice", "MarshalEncode-at-depth", "Unmarshal-any", "Unmarshal-linked", "UnmarshalRead-any", "Marshal-cyclic", "Marshal-reenter"}
+	"Marshal-anyslice", "Marshal-anymap", "Marshal-ptrchain", "Marshal-recslice", "Marshal-recmap", "MarshalWrite-anyslice", "MarshalEncode-at-depth", "Unmarshal-any", "Unmarshal-linked", "UnmarshalRead-any", "Marshal-cyclic", "Marshal-reenter", "Unmarshal-into-self-referential-interface"}
 
 // recursive Go types for deep values
 type recSlice []recSlice
@@ -349,6 +350,16 @@ func (sc *Depth) Run(t *core.Tape, env *Env) (any, []core.Violation) {
 			var x linkedT
 			return json.Unmarshal(b, &x)
 		})
+	case "Unmarshal-into-self-referential-interface":
+		// var x any; x = &x; Unmarshal(text, &x) - unbounded recursion would be
+		// fatal to the process, so it runs in a child
+		which := []string{"v2", "v1"}[p.Mix%2]
+		out, err := exec.Command(os.Args[0], "probe", "unmarshal-self-"+which).CombinedOutput()
+		st.Steps++
+		st.Probe("c20/unmarshal-self-referential-interface/" + which + "(child process)")
+		if err != nil || !bytes.Contains(out, []byte("PROBE-RESULT")) {
+			report("C20", "C20/unbounded-recursion", "Unmarshal-self-interface/"+which, "Unmarshal into an interface that holds a pointer to itself did not return: child process: %v %s", err, clip(out, 200))
+		}
 	case "Marshal-cyclic":
 		if p.Cyclic == "interface-pointer" || p.Cyclic == "pointer-to-pointer" || p.Cyclic == "two-pointer-types" || p.Cyclic == "double-pointer" {
 			// these cycles never deepen the JSON nesting; unbounded recursion would
@@ -522,6 +533,18 @@ func (sc *Depth) cyclicValue(p *DepthPlan) any {
 
 // ProbeCyclic is run in a child process: it prints PROBE-RESULT error|nil.
 func ProbeCyclic(kind string) {
+	if strings.HasPrefix(kind, "unmarshal-self-") {
+		var x any
+		x = &x
+		var err error
+		if kind == "unmarshal-self-v1" {
+			err = jsonv1.Unmarshal([]byte(`{"a":[1]}`), &x)
+		} else {
+			err = json.Unmarshal([]byte(`{"a":[1]}`), &x)
+		}
+		fmt.Println("PROBE-RESULT returned", err)
+		return
+	}
 	p := &DepthPlan{Cyclic: strings.TrimPrefix(kind, "cyclic-")}
 	v := (&Depth{}).cyclicValue(p)
 	_, err := json.Marshal(v)
